@@ -108,9 +108,37 @@ def obligations(chk, prop='C17'):
                 items.append(Adt('Option<&str>', {(1, 0): Obj('str', text='"%s"' % nm)} if nm else {}, 1 if nm else 0))
             return Obj('iter', items=tuple(items), ty=dty, d=i)
 
+        prev_new = M.table.get('Regex::new')
+
+        @reg('Regex::new')
+        def _(ex_, info, a, dty):
+            # a regex compiled again from the TEXT of a registered one is another regex: it matches what that text matches
+            # with default options - not necessarily what the registered regex (built with its own options) matches
+            p_ = pattern_of(ex_, a[0])
+            if p_ is not None and not (p_.d['lead'] or p_.d['trail']):
+                return Adt(dty or 'Result<Regex, regex::Error>', {(0, 0): Obj('regex', d=p_.d['d'], recompiled=True)}, 0)
+            if prev_new is not None:
+                return prev_new(ex_, info, a, dty)
+            raise Inconclusive('Regex::new(%r)' % (a[0],))
+
+        def is_recompiled(ex_, v):
+            v = ex_.materialize(v)
+            for _ in range(6):
+                if isinstance(v, Ref):
+                    v = ex_.materialize(ex_.read_path(v.cell, v.path))
+                elif isinstance(v, Adt) and (None, 0) in v.fields:
+                    v = ex_.materialize(v.fields[(None, 0)])
+                else:
+                    break
+            return isinstance(v, Obj) and bool(v.d.get('recompiled'))
+
         @reg('Regex::captures_read')
         def _(ex_, info, a, dty):
             i = def_of(ex_, a[0])
+            if is_recompiled(ex_, a[0]):
+                # the verdict of ANOTHER regex: free, and the registered definition was not asked
+                M.log(ex_, 'recompiled_regex_tried', d=i)
+                return Adt(dty or 'Option<Match>', {(1, 0): Obj('match', d=i)}, z3.If(z3.Bool('text-of-regex(%d)-recompiled-with-default-options-matches' % i), bv(1), bv(0)))
             M.log(ex_, 'regex_tried', d=i)
             return Adt(dty or 'Option<Match>', {(1, 0): Obj('match', d=i)}, z3.If(matched[i], bv(1), bv(0)))
 
@@ -430,6 +458,13 @@ def confirm(chk, bad):
             n += 1
             if not m_.group(2).startswith('one:'):
                 devs.append('the same (keyword, regex, location) registered twice (%s) and matched by nothing else: %s (one definition expected)' % (m_.group(1), m_.group(2)))
+    # regexes built with non-default options (RegexBuilder) match as built
+    for ln in out.splitlines():
+        m_ = re.match(r'BUILDERCASE (\S+) ok=(\w+) result=(\S*)', ln)
+        if m_:
+            n += 1
+            if m_.group(2) != 'true':
+                devs.append('a definition registered with a %s regex (RegexBuilder) gives %s for a step only it matches' % (m_.group(1), m_.group(3)))
     for o in bad:
         if res is None or n == 0:
             o.verdict = 'inconclusive'
